@@ -3,7 +3,7 @@
    Histories are lists of lop of ANY length, the limit is ANY integer >= 1, any number of blocked producers and waiting
    consumers.  `lq_reach limit ops` is the state of the transcription of limited_queue<T> (as repaired by fa14f83) after
    the history; `lgood` is the invariant every destruction-free history establishes (c10_invariant_reachable). *)
-From Cocls Require Import Base BaseProofs QueueDefs QueueProofs.
+From Cocls Require Import Base BaseProofs QueueDefs QueueProofs QueueConcProofs.
 Local Open Scope Z_scope.
 
 (* refinement: for every history whose constructor calls ask for limit >= 1 the model's observations are those of the
@@ -90,6 +90,21 @@ Print Assumptions c10_pop_completes_only_by.
 Theorem c10_oracle_accepts_model : forall ops, limits_ok (map lq_decode ops) -> lq_oracle ops (lq_run ops) = true.
 Proof. exact lq_oracle_accepts_model. Qed.
 Print Assumptions c10_oracle_accepts_model.
+
+(* ---- interleaving model (limited_queue<T>, any limit >= 1): ANY number of producer / consumer / unblock_pop threads, ANY schedule of ANY length.
+   A push or pop is a critical section followed, after the unlock, by a separate step that resolves the promise taken
+   inside (QueueDefs.tstep).  In every reachable state the items pushed so far (every producer's first k values, tagged
+   with producer and index, hence pairwise distinct: NoDup) are exactly, as a multiset, the items received by pops + the
+   items in flight between a critical section and its resolution + the queued items + the items held by blocked pushes;
+   and items / waiting consumers are never both non-empty. ---- *)
+Theorem c10_conc_conservation : forall limit thrs s, 1 <= limit -> Forall t_fresh thrs -> t_reachable (Some limit) thrs s ->
+  NoDup (t_plog s) /\
+  Permutation (t_plog s)
+    (map snd (ritems (t_rlog s)) ++ map snd (iitems (t_infl s)) ++ t_items s ++ map fst (t_blocked s)) /\
+  (forall p, filter (of_p p) (t_plog s) = expected_plog p (nth_error (t_thr s) p)) /\
+  (t_items s = [] \/ t_waiters s = []).
+Proof. intros limit thrs s L. exact (tq_conservation (Some limit) thrs s L). Qed.
+Print Assumptions c10_conc_conservation.
 
 (* non-vacuity: limit 2, four pushes (two blocked), unblock_push withdraws 13, a pop delivers 11 and admits 14 *)
 Example c10_nonvacuous :
